@@ -30,9 +30,12 @@ text = f'''## 12. Seeded changes (mutation campaign)
 
 Fresh sub-agents were given only the text of one property and a scratch git worktree of /repo under /tmp (nothing from
 /verif), and asked for realistic changes that break the property, keep the package importable and the existing tests
-green, and need something specific to manifest.  Five waves: two changes per property (19 agents), then three changes
+green, and need something specific to manifest.  Six waves: two changes per property (19 agents), then three changes
 each in a different function for eleven, eight, nine and seven properties (later agents were told which *sites* had been
-used, nothing else; the last wave was time-boxed to an hour per agent).  Every change was confirmed by me before it was kept (`tools_confirm_seed.sh`: demo passes on the clean
+used, nothing else; the fifth wave was time-boxed to an hour per agent), and a sixth, 20-minute wave of two changes each for
+C12, C13, C14, C15 and C17 (ten changes: one was rejected because the package tests fail with it, five repeated the site
+and effect of an earlier seed and were caught as built but not kept a second time, four were kept: two caught as built,
+two missed and answered by C15 instance-reuse histories and C17 band-edge points).  Every change was confirmed by me before it was kept (`tools_confirm_seed.sh`: demo passes on the clean
 tree and fails with the patch, in the agent's worktree; the named package tests pass with the patch in a scratch export of
 /repo HEAD under /var/tmp; the property's check is run with `FA_REPO` pointing at that export; the export is removed).
 Nothing was ever applied to /repo itself.  Each kept change lives in `/verif/seeded/<id>/` (`patch.diff`, `demo.py`, the
@@ -42,7 +45,8 @@ the check of its own property); `tools_verify_seeds.sh` re-runs all of them agai
 {len(names)} changes kept; {first} were caught by the checks as they stood when the change arrived, {missed} were missed
 at first (or would have been: for a few I strengthened the check on reading the agent's report, before running it) and
 are caught after the strengthening named in the table; one is deliberately not judged.  `seeded/VERIFY.log` is the
-last complete `tools_verify_seeds.sh` run over all of them ({ncaught} CAUGHT, the not-judged one MISSED).
+last complete `tools_verify_seeds.sh` run over the first 142, with the lines of the four wave-6 seeds (run singly against
+the committed checks) appended ({ncaught} CAUGHT, the not-judged one MISSED).
 
 | seed | change | needs | result |
 |---|---|---|---|
@@ -64,7 +68,10 @@ either would alarm on code for which the property can be read to hold.  C05 ther
   literals, types given as strings, arguments of different float types, a narrow ambient mpmath precision, documented
   Context parameters, user definitions registered between requests -> history families on shared objects (C01, C02,
   C05, C09, C10, C11, C17), second and third routes (C10, C17), C07 family F3, C18 second register object, C03 parameter
-  variants, C13 ambient precision, C15 mixed argument types;
+  variants, C13 ambient precision, C15 mixed argument types, C15 one backend instance across float types;
+* *a lattice centred on the implementation's own decision point instead of the specification's limit*: C17's
+  neighbourhoods sat at (k+1/2) ln2, where the code switches k, while the statement's bound is violated first at the edge
+  of the permitted band -> points just outside frac = 0.45 / 0.55 for every k;
 * *kinds, templates and options outside the hand-written program alphabets* -> C05/C06 take their kinds from the targets'
   own tables as well; C08 forces a variable for every node; C12 `fix_overflow`; C16 user schemes and number operands;
   C14 the derived log2 metric;
